@@ -321,7 +321,8 @@ pub fn gen_case(w: &mut World, p: &Profile) -> CaseA {
         }
     }
     let cancel_at = if w.chance(p.cancel_pct) { Some(w.below(7)) } else { None };
-    let max_yields = if !always.is_empty() { Some(6 * nl + w.below(2 * nl + 1)) } else { None };
+    // (a few long runs: counters that wrap after 256 polls only show there)
+    let max_yields = if !always.is_empty() { Some(if !p.small && w.chance(4) { 530 + w.below(300) } else { 6 * nl + w.below(2 * nl + 1) }) } else { None };
     let plain = !p.small && !shape.nested() && plain_supported(shape.fam, shape.cont, shape.kids.len()) && w.chance(15);
     if plain {
         w.st.plain_cases += 1;
